@@ -9,26 +9,26 @@ from rules.c10 import fold
 
 PANIC_PREFIX = ("core::panicking::", "core::option::unwrap_failed", "core::option::expect_failed", "core::result::unwrap_failed", "core::slice::index::slice_", "core::str::slice_error_fail")
 
-# ---- R08.2 audited explicit panic sites: (function key prefix, kind) -> reason -----------------------------
+# ---- R08.2 audited explicit panic sites: (root function key prefix, kind, number of sites) -> reason -----------------------------
 AUDIT = [
-    ("<embedded_graphics::mono_font::draw_target::MonoFontDrawTarget<", "panic", "unreachable!() in draw_iter/clear of the internal font adapter: proved unreachable from text drawing on the monomorphic instance closure (R08.2 mono)"),
-    ("<embedded_graphics_core::geometry::point::Point as core::ops::arith::Add<embedded_graphics_core::geometry::size::Size>>::add", "panic_fmt", "documented: Point + Size panics if a size component exceeds i32::MAX (never at display scale: sizes <= 2^16)"),
-    ("<embedded_graphics_core::geometry::point::Point as core::ops::arith::AddAssign<embedded_graphics_core::geometry::size::Size>>::add_assign", "panic_fmt", "documented: as Point + Size"),
-    ("<embedded_graphics_core::geometry::point::Point as core::ops::arith::SubAssign<embedded_graphics_core::geometry::size::Size>>::sub_assign", "panic_fmt", "documented: as Point - Size"),
-    ("embedded_graphics_core::geometry::point::Point::sub_size", "panic_fmt", "documented: Point - Size panics if a size component exceeds i32::MAX"),
-    ("<embedded_graphics_core::geometry::point::Point as core::ops::index::Index<usize>>::index", "panic_fmt", "documented: index other than 0/1"),
-    ("<embedded_graphics_core::geometry::size::Size as core::ops::index::Index<usize>>::index", "panic_fmt", "documented: index other than 0/1"),
-    ("<embedded_graphics_core::pixelcolor::raw::RawU16 as embedded_graphics_core::pixelcolor::raw::load_store::LoadStore<O>>::load::{closure#1}", "unwrap", "try_into of a slice obtained by get(0..2): length is exactly 2 (slot rule R11.7)"),
-    ("<embedded_graphics_core::pixelcolor::raw::RawU24 as embedded_graphics_core::pixelcolor::raw::load_store::LoadStore<O>>::load::{closure#1}", "unwrap", "try_into of a slice obtained by get(0..3): length is exactly 3 (R11.7)"),
-    ("<embedded_graphics_core::pixelcolor::raw::RawU32 as embedded_graphics_core::pixelcolor::raw::load_store::LoadStore<O>>::load::{closure#1}", "unwrap", "try_into of a slice obtained by get(0..4): length is exactly 4 (R11.7)"),
-    ("embedded_graphics::framebuffer::Framebuffer::<C, <C as embedded_graphics_core::pixelcolor::PixelColor>::Raw, BO, WIDTH, HEIGHT, N>::CHECK_N", "panic_fmt", "compile-time assertion N >= BUFFER_SIZE (evaluated by the compiler, R10.5)"),
-    ("embedded_graphics::framebuffer::Framebuffer::<C, <C as embedded_graphics_core::pixelcolor::PixelColor>::Raw, O, WIDTH, HEIGHT, N>::as_image", "unwrap", "ImageRaw::new on data[0..BUFFER_SIZE] with Size(WIDTH, HEIGHT): the length is the expected one by R10.4/R10.5/R09.2"),
-    ("embedded_graphics::image::image_raw::ImageRaw::<'a, C, O>::new_const", "panic_fmt", "documented panic of the const constructor (compile-time for built-in fonts)"),
-    ("embedded_graphics::primitives::common::closed_thick_segment_iter::ClosedThickSegmentIter::<'a>::new", "unwrap", "first() of a slice tested non-empty on the same path"),
-    ("embedded_graphics::primitives::common::scanline::Scanline::touches", "assert_failed", "debug_assert on equal y of two scanlines produced for the same row (internal contract)"),
-    ("embedded_graphics::primitives::common::scanline::Scanline::try_extend", "assert_failed", "debug_assert on equal y (internal contract)"),
-    ("embedded_graphics::primitives::polyline::scanline_iterator::ScanlineIterator::<'a>::new", "panic_fmt", "debug_assert!(stroke_width > 1): thick scanline iterator is only built for widths >= 2 (R01.2 polyline rules)"),
-    ("embedded_graphics::primitives::triangle::Triangle::from_slice", "panic_fmt", "documented: slice length other than 3"),
+    ("<embedded_graphics::mono_font::draw_target::MonoFontDrawTarget<", "panic", 1, "unreachable!() in draw_iter/clear of the internal font adapter: proved unreachable from text drawing on the monomorphic instance closure (R08.2 mono)"),
+    ("<embedded_graphics_core::geometry::point::Point as core::ops::arith::Add<embedded_graphics_core::geometry::size::Size>>::add", "panic_fmt", 2, "documented: Point + Size panics if a size component exceeds i32::MAX (never at display scale: sizes <= 2^16)"),
+    ("<embedded_graphics_core::geometry::point::Point as core::ops::arith::AddAssign<embedded_graphics_core::geometry::size::Size>>::add_assign", "panic_fmt", 2, "documented: as Point + Size"),
+    ("<embedded_graphics_core::geometry::point::Point as core::ops::arith::SubAssign<embedded_graphics_core::geometry::size::Size>>::sub_assign", "panic_fmt", 2, "documented: as Point - Size"),
+    ("embedded_graphics_core::geometry::point::Point::sub_size", "panic_fmt", 2, "documented: Point - Size panics if a size component exceeds i32::MAX"),
+    ("<embedded_graphics_core::geometry::point::Point as core::ops::index::Index<usize>>::index", "panic_fmt", 1, "documented: index other than 0/1"),
+    ("<embedded_graphics_core::geometry::size::Size as core::ops::index::Index<usize>>::index", "panic_fmt", 1, "documented: index other than 0/1"),
+    ("<embedded_graphics_core::pixelcolor::raw::RawU16 as embedded_graphics_core::pixelcolor::raw::load_store::LoadStore<O>>::load", "unwrap", 1, "try_into of a slice obtained by get(0..2): length is exactly 2 (slot rule R11.7)"),
+    ("<embedded_graphics_core::pixelcolor::raw::RawU24 as embedded_graphics_core::pixelcolor::raw::load_store::LoadStore<O>>::load", "unwrap", 1, "try_into of a slice obtained by get(0..3): length is exactly 3 (R11.7)"),
+    ("<embedded_graphics_core::pixelcolor::raw::RawU32 as embedded_graphics_core::pixelcolor::raw::load_store::LoadStore<O>>::load", "unwrap", 1, "try_into of a slice obtained by get(0..4): length is exactly 4 (R11.7)"),
+    ("embedded_graphics::framebuffer::Framebuffer::<C, <C as embedded_graphics_core::pixelcolor::PixelColor>::Raw, BO, WIDTH, HEIGHT, N>::CHECK_N", "panic_fmt", 1, "compile-time assertion N >= BUFFER_SIZE (evaluated by the compiler, R10.5)"),
+    ("embedded_graphics::framebuffer::Framebuffer::<C, <C as embedded_graphics_core::pixelcolor::PixelColor>::Raw, O, WIDTH, HEIGHT, N>::as_image", "unwrap", 1, "ImageRaw::new on data[0..BUFFER_SIZE] with Size(WIDTH, HEIGHT): the length is the expected one by R10.4/R10.5/R09.2"),
+    ("embedded_graphics::image::image_raw::ImageRaw::<'a, C, O>::new_const", "panic_fmt", 1, "documented panic of the const constructor (compile-time for built-in fonts)"),
+    ("embedded_graphics::primitives::common::closed_thick_segment_iter::ClosedThickSegmentIter::<'a>::new", "unwrap", 1, "first() of a slice tested non-empty on the same path"),
+    ("embedded_graphics::primitives::common::scanline::Scanline::touches", "assert_failed", 1, "debug_assert on equal y of two scanlines produced for the same row (internal contract)"),
+    ("embedded_graphics::primitives::common::scanline::Scanline::try_extend", "assert_failed", 1, "debug_assert on equal y (internal contract)"),
+    ("embedded_graphics::primitives::polyline::scanline_iterator::ScanlineIterator::<'a>::new", "panic_fmt", 1, "debug_assert!(stroke_width > 1): thick scanline iterator is only built for widths >= 2 (R01.2 polyline rules)"),
+    ("embedded_graphics::primitives::triangle::Triangle::from_slice", "panic_fmt", 1, "documented: slice length other than 3"),
 ]
 
 
@@ -84,7 +84,9 @@ def no_alloc(ctx, rep):
 
 
 def audit(prog, rep):
-    sites = {}
+    """Sites are keyed by (root function, kind): closures count for the function that creates them, and a helper
+    that does not exist in the reference tree counts for every reference function that (transitively) calls it."""
+    own = {}
     for f in sorted(prog.fns.values(), key=lambda f: f.id):
         if not f.body or "::mock_display::" in f.id:
             continue
@@ -94,17 +96,46 @@ def audit(prog, rep):
                 path = t["f"].get("path", "") or ""
                 nm = t["f"].get("name", "")
                 if path.startswith(PANIC_PREFIX) or (nm in ("unwrap", "expect", "unwrap_unchecked") and path.startswith("core::")):
-                    k = (f.key(), panic_kind(path, nm))
-                    sites.setdefault(k, []).append(t.get("sp", ""))
+                    own.setdefault(f.root_fn().id, []).append((panic_kind(path, nm), t.get("sp", "")))
+    # callers of new helpers
+    callers = {}
+    for f in prog.fns.values():
+        if not f.body:
+            continue
+        for b in f.body["blocks"]:
+            t = b["t"]
+            if t and t["k"] == "call":
+                p = (t["f"].get("resolved") or t["f"]).get("path", "") or ""
+                for g in prog.by_path.get(p, []):
+                    if g.body and prog.is_new(g):
+                        callers.setdefault(g.root_fn().id, set()).add(f.root_fn().id)
+
+    def owners(fid, seen=()):
+        f = prog.fns[fid]
+        if not prog.is_new(f) or fid in seen:
+            return {fid}
+        cs = callers.get(fid)
+        if not cs:
+            return {fid}
+        out = set()
+        for c in cs:
+            out |= owners(c, seen + (fid,))
+        return out
+
+    sites = {}
+    for fid, lst in own.items():
+        for o in owners(fid):
+            for kind, sp in lst:
+                sites.setdefault((prog.fns[o].key(), kind), []).append(sp)
     n = 0
     for (fk, kind), sps in sorted(sites.items()):
         reason = None
-        for pref, akind, why in AUDIT:
-            if fk.startswith(pref) and kind == akind:
+        for pref, akind, cnt, why in AUDIT:
+            if fk.startswith(pref) and kind == akind and len(sps) <= cnt:
                 reason = why
         n += 1
         rep.check(reason is not None, "R08.2", "panic-site:%s:%s" % (kind, fk),
-                  "unaudited explicit panic site (%s) in %s: every panic entry point reachable from library code must be listed with the reason why display-scale inputs cannot reach it" % (kind, fk),
+                  "unaudited explicit panic site(s) (%s, %d) in %s: every panic entry point reachable from library code must be listed with the reason why display-scale inputs cannot reach it" % (kind, len(sps), fk),
                   at=sps[0], fn=fk, detail=reason)
     rep.floor("R08.2", "explicit panic sites", n, 15)
 
@@ -157,23 +188,18 @@ def zero_guards(prog, rep):
                 ok = ok and g
     rep.check(ok and n >= 1, "R08.5", "ContiguousPixels::next", "`self.width - 1` must only be evaluated when remaining_y != 0 (new() leaves remaining_y = 0 for zero-width images, so a zero width never underflows)", at=nx.span, fn=nx.path)
     nw = prog.method1(CP, "new", None)
-    good = True
-    for lits, ret, _ in decisions(nw):
-        r = strip_refs(ret)
-        if r[0] != "agg":
-            good = False
-            continue
-        ry = fold(r[2][fidx["remaining_y"]])
-        wz = None
-        for d, lit in lits:
-            d = fold(strip_refs(d))
-            if match(d, ("bin", "Gt", ("field", ("param", 2, "size"), 0), ("const", 0))) is not None:
-                wz = not lit_truth(lit)
-        if wz is True and ry != ("const", 0):
-            good = False
-        if wz is None and ry != ("const", 0):
-            good = False
-    rep.check(good, "R08.5", "ContiguousPixels::new", "remaining_y must be 0 whenever size.width is 0 (prevents the underflow of `width - 1` in next())", at=nw.span, fn=nw.path)
+    # what-if query of the interval domain: with size.width = 0 at entry, the remaining_y of every result is 0
+    from mirq.intervals import Analyzer, Contracts, FnRun, fmt
+    an = Analyzer(prog, Contracts())
+    names = [l.get("name") for l in nw.body["locals"][1:nw.body["argc"] + 1]]
+    good = "size" in names
+    got = None
+    if good:
+        run = FnRun(an, nw)
+        run.run({(names.index("size") + 1, (("f", 0),)): (0, 0)})
+        got = run.ret_sub.get((("f", fidx["remaining_y"]),))
+        good = got == (0, 0)
+    rep.check(good, "R08.5", "ContiguousPixels::new", "remaining_y must be 0 whenever size.width is 0 (prevents the underflow of `width - 1` in next()); the interval analysis of new() with size.width = 0 gives remaining_y in %s" % fmt(got), at=nw.span, fn=nw.path)
     # iterator::contiguous::Cropped::next: uses of self.iter are behind the emptiness test
     CR = "embedded_graphics::iterator::contiguous::Cropped"
     nx = prog.method1(CR, "next", "core::iter::traits::iterator::Iterator")
